@@ -85,6 +85,10 @@ class C07Check(Check):
                 "napa": g.pick([1, 1, 2, 3]) if g.chance(0.8) else [g.pick([1, 2, 3]) for _ in range(g.pick([1, 2, 3]))],
                 "no_answer": [f.chance(0.15) for _ in range(12)],
                 "ru": g.chance(0.7),
+                # annotator performance estimates handed to the wrapper (any real numbers, also negative ones)
+                "A_perf": ([round(g.uniform(-3, 3), 2) for _ in range(na)] if g.chance(0.5) else [[round(g.uniform(-3, 3), 2) for _ in range(na)] for _ in range(n)]) if g.chance(0.3) else None,
+                # an index array of annotators may legally repeat an index
+                "dup_annot_idx": g.chance(0.2),
             }
             cycles.append(cyc)
         return {"engine": "crowdsim", "subject": subject, "model": "pwc", "seed": g.randrange(0, 1000), "X": X.tolist(), "y0": y0, "truth": truth, "cycles": cycles}
@@ -134,6 +138,8 @@ class C07Check(Check):
             if len(on) == 0:
                 on = np.array([0])
             ann_arg = on.copy()
+            if cyc.get("dup_annot_idx"):
+                ann_arg = np.concatenate([on[-1:], on])
             A = np.zeros((len(rows), na), dtype=bool)
             A[:, on] = True
         else:
@@ -183,11 +189,18 @@ class C07Check(Check):
                 call["annotators"] = ann_arg
             if subj == "SingleAnnotatorWrapper":
                 call["n_annotators_per_sample"] = napa if isinstance(napa, int) else np.array(napa)
+                if cyc.get("A_perf") is not None:
+                    ap = np.array(cyc["A_perf"], dtype=float)
+                    if ap.ndim == 2:
+                        ap = ap[rows] if cyc["cand"] != "none" else ap
+                    call["A_perf"] = ap
             call["batch_size"] = bs
-            call["return_utilities"] = True
+            want_ut = bool(cyc.get("ru", True))
+            call["return_utilities"] = want_ut
             try:
                 with Fuel(FUEL):
-                    idx, ut = qs.query(X, y.copy(), **call)
+                    res = qs.query(X, y.copy(), **call)
+                idx, ut = res if want_ut else (res, None)
             except SimFuelExhausted:
                 ctx.violate("query-does-not-terminate", subj, f"cycle {t}: query used more than {FUEL} line events (batch {bs}, {n_avail} available pairs, availability rows {A.sum(axis=1).tolist()}, representation {rep})", cond)
                 break
@@ -213,6 +226,11 @@ class C07Check(Check):
                 ctx.violate("wrong-count", subj, f"cycle {t}: {len(pairs)} pairs returned, min(batch_size={bs}, available pairs={n_avail})={want} expected (available per row {A.sum(axis=1).tolist()})", cond)
                 break
             # ---- utilities
+            if ut is None:
+                ut = np.full((len(pairs), len(rows) if cyc["cand"] == "rows" else n, na), 0.0)
+                skip_ut = True
+            else:
+                skip_ut = False
             ut = np.asarray(ut, dtype=float)
             n_rows_u = len(rows) if cyc["cand"] == "rows" else n
             ctx.probe("utilities_checked")
@@ -226,7 +244,7 @@ class C07Check(Check):
                 full[rows] = A
             chosen = []
             ok = True
-            for k, p in enumerate(pairs):
+            for k, p in enumerate([] if skip_ut else pairs):
                 mustnan = ~full
                 if mustnan.any() and not np.isnan(ut[k][mustnan]).all():
                     ctx.violate("utilities-not-nan-at-unavailable", subj, f"cycle {t}: step {k}: utilities are numbers at unavailable pairs", cond)
